@@ -269,7 +269,7 @@ def column0_program(rng, kinds):
     return "\n".join(lines) + rng.choice(["", "\n"])
 
 
-PAIR_ALPHA = ["a", "b", " ", " ", "\n", "\n", "}", "{", "é", "😀", "x", "\t", "漢"]
+PAIR_ALPHA = ["a", "b", " ", " ", "\n", "\n", "}", "{", "é", "è", "😀", "🦀", "😀", "x", "\t", "漢", "字"]
 
 
 def gen_pair(rng, kinds):
@@ -347,6 +347,15 @@ def check_pair(c, old, new, kind, kinds, formatted_by=None):
     c.seen.add(key)
     rep = {"kind": kind, "old": old, "new": new}
     r = c.vp.call({"cmd": "edits", "old": old, "new": new})
+    if "edits" not in r and "is not a char boundary" in str(r.get("panic", "")) and "`" in str(r.get("panic", "")):
+        # dissimilar 1.0.3 itself panics (str slicing inside a multi-byte character) on some texts with neighbouring
+        # multi-byte characters that share bytes: no answer, hence outside this property (a server crash: C06/C14).
+        # Counted per kind; samples kept in evidence.
+        c.dist["diff_panicked_" + kind] = c.dist.get("diff_panicked_" + kind, 0) + 1
+        chk.extra.setdefault("diff_panic_samples", [])
+        if len(chk.extra["diff_panic_samples"]) < 3:
+            chk.extra["diff_panic_samples"].append({"kind": kind, "old": old[:200], "new": new[:200], "panic": r["panic"][:160]})
+        return None
     if "edits" not in r:
         chk.oracle_failure(None, "get_text_edits gave no answer on %r: %s" % (old[:80], json.dumps(r)[:200]), rep)
         return None
@@ -356,7 +365,11 @@ def check_pair(c, old, new, kind, kinds, formatted_by=None):
     o = "".join(t for k, t in chunks if k in "=-")
     n = "".join(t for k, t in chunks if k in "=+")
     if o != old or n != new:
-        chk.tie_break("assumption:diff_partitions", "dissimilar::diff chunks do not partition old/new", dict(rep, chunks=chunks))
+        # dissimilar 1.0.3 can lose a character between neighbouring multi-byte characters that share bytes (F-C17c);
+        # get_text_edits detects that (is_partition) and replaces the whole document -- modelled, so the correspondence
+        # and the oracle below decide; here it is only counted
+        c.dist["diff_not_partition"] = c.dist.get("diff_not_partition", 0) + 1
+        kinds = set(kinds) | {"diff_not_partition"}
     # --- correspondence
     m = c.model.call({"cmd": "edits", "chunks": [[k, scal(t)] for k, t in chunks], "old": scal(old), "new": scal(new),
                       "error": 0, "file": True})
@@ -593,7 +606,7 @@ def run(chk):
         "distinct = distinct (old, new); non-trivial = old != new and at least one edit returned")
     chk.extra["distribution"] = c.dist
     chk.assumptions = [
-        "dissimilar::diff is an oracle: only `chunks partition old/new` is assumed (and, for C17_already_formatted, that identical texts give Equal chunks only); both validated on every case",
+        "dissimilar::diff is an oracle about which nothing is assumed for correctness (the code validates the chunks; non-partitioning diffs are counted in distribution.diff_not_partition); only C17_already_formatted assumes that identical texts give Equal chunks only, validated on every such case",
         "the formatter is an oracle (any function text -> text); program cases use the real one with default options",
         "u32 line/character counters are modelled as unbounded naturals (documents below 2^32 lines / code units)",
         "LSP positions are interpreted strictly (no clamping of out-of-range characters): spec/LspEdits.v",
